@@ -70,7 +70,7 @@ class _O:
 
     def set_initial_value(self, y, t=0.0):
         self.y0 = list(y)
-        self.buf = np.array(list(y), dtype=object)
+        self.buf = np.array(list(y), dtype=object if self.o.symbolic else float)
         return self
 
     def integrate(self, t):
@@ -86,7 +86,7 @@ class _O:
         if self.o.alias:
             self.buf[:] = y
             return self.buf
-        return np.array(y, dtype=object)
+        return np.array(y, dtype=object if self.o.symbolic else float)
 
 
 def absval(x):
@@ -100,12 +100,13 @@ class Steady(Scenario):
     max_paths = 200
     max_decisions = 5000
 
-    def __init__(self, dim, rel, user_y0, earlier, alias, K, e_conc=None, drift=False, via="simulator"):
+    def __init__(self, dim, rel, user_y0, earlier, alias, K, e_conc=None, drift=False, via="simulator", zero_start=False):
         self.dim, self.rel, self.user_y0, self.earlier, self.alias, self.K = dim, rel, user_y0, earlier, alias, K
         self.e_conc, self.drift, self.via = e_conc, drift, via
+        self.zero_start = zero_start  # relative norm with an exactly empty pool at the start
         self.key = (f"C15/{'drift' if drift else 'contract'}/d{dim}/{'rel' if rel else 'abs'}/{'y0user' if user_y0 else 'y0default'}/"
                     f"{'after-sim' if earlier else 'fresh'}/{'aliased' if alias else 'fresh-array'}/K{K}"
-                    f"{'' if e_conc is None else '/e' + str(e_conc)}/{via}")
+                    f"{'' if e_conc is None else '/e' + str(e_conc)}/{via}{'/zero-start' if zero_start else ''}")
 
     def build(self, ctx):
         from mxlpy import Model
@@ -114,7 +115,8 @@ class Steady(Scenario):
         m = Model()
         pools = ["x", "y"][: self.dim]
         for p in pools:
-            m.add_parameter(f"kin_{p}", ctx.real(f"p_kin_{p}"))
+            # the influx is defined through the analytic steady state y* = kin / k (keeps the queries polynomial)
+            m.add_parameter(f"kin_{p}", ctx.real(f"p_k_{p}") * ctx.real(f"ystar_{p}"))
             m.add_parameter(f"k_{p}", ctx.real(f"p_k_{p}"))
             m.add_variable(p, ctx.real(f"i_{p}"))
             m.add_reaction(f"vin_{p}", R.mass_action_0s, args=[f"kin_{p}"], stoichiometry={p: 1})
@@ -136,11 +138,12 @@ class Steady(Scenario):
 
         m, pools = self.build(ctx)
         k = {p: ctx.real(f"p_k_{p}") for p in pools}
-        kin = {p: ctx.real(f"p_kin_{p}") for p in pools}
         for p in pools:
             ctx.assume(k[p] > 0)
-        ystar = [kin[p] / k[p] for p in pools]
+        ystar = [ctx.real(f"ystar_{p}") for p in pools]
         y0 = [ctx.real(f"u_{p}") for p in pools] if self.user_y0 else [ctx.real(f"i_{p}") for p in pools]
+        if self.zero_start:
+            y0 = [0.0 for _ in pools]
         sym_tol = self.via == "simulator" and not (self.drift and self.rel)
         tol = ctx.real("tol") if sym_tol else 1e-6
         if sym_tol:
@@ -165,7 +168,8 @@ class Steady(Scenario):
                 ctx.assume(absval(v - s) * self.dim < bound)
                 if self.rel:
                     ctx.assume(s > 0)
-                    ctx.assume(v > 0)
+                    if not self.zero_start:
+                        ctx.assume(v > 0)
             stub = OdeStub(FlowModel("influx"), ctx.symbolic, ystar=ystar, e=e, alias=self.alias)
         isc.spi = stub
 
@@ -188,6 +192,22 @@ class Steady(Scenario):
         if self.earlier:
             with ctx.impl("earlier simulate"):
                 sim.simulate(ctx.real("t_prev_pos") if False else 3.0, steps=1)
+        if self.zero_start:
+            # dividing by the empty pool: any failure is acceptable, a reported success must still be a steady state
+            try:
+                sim.simulate_to_steady_state(tolerance=tol, rel_norm=True)
+                result = sim.get_result()
+            except ZeroDivisionError:
+                ctx.note("relative norm undefined for an empty pool: raised")
+                ctx.true("no success reported for an undefined relative norm (raised)", True)
+                return
+            if isinstance(result.value, Exception):
+                ctx.true("no success reported for an undefined relative norm (failure value)", True)
+                return
+            frame = result.value.raw_variables[-1]
+            state = [frame[p].iloc[-1] for p in pools]
+            self.check_state(ctx, state, ystar, tol, y0, pools, k)
+            return
         with ctx.impl("simulate_to_steady_state"):
             if sym_tol:
                 sim.simulate_to_steady_state(tolerance=tol, rel_norm=self.rel)
@@ -251,6 +271,8 @@ def scenarios(tier, seed):
         for e in (0.5, 0.25):
             scs.append(Steady(2, False, False, False, alias, 3, e_conc=e))
         scs.append(Steady(1, False, False, False, alias, 3, via="worker", e_conc=0.5))
+        scs.append(Steady(1, True, True, False, alias, 3, e_conc=0.5, zero_start=True))
+        scs.append(Steady(1, True, True, True, alias, 3, e_conc=0.25, zero_start=True))
         # no steady state
         for rel in (False,):
             for earlier in (False, True):
